@@ -120,6 +120,7 @@ macro_rules! per_variant {
 
             /// C13/C20: finite everywhere on [0,1]; within [0,1] except for the Back family.
             #[kani::proof]
+            #[kani::solver(kissat)]
             pub(crate) fn range() {
                 let e = builtin($i);
                 let x: f32 = kani::any();
